@@ -352,7 +352,9 @@ class BehavioralRTLIRToVVisitorL1( bir.BehavioralRTLIRNodeVisitor ):
           return one_bit_template.format( **locals() )
 
     elif isinstance( node.value, bir.Index ):
-      _one_bit = True
+      # An index is a single bit only for a bit selection; an element of an
+      # (un)packed array keeps its full width and needs its msb replicated.
+      _one_bit = current_nbits == 1
     else:
       _one_bit = False
 
